@@ -92,13 +92,108 @@ MUTATORS = {'append', 'extend', 'insert', 'pop', 'remove', 'clear', 'sort', 'rev
             'send', 'throw', 'close'}
 
 
+ANCHORS = {'_run', 'visit', 'traverse', 'transform', '_transform', '_finalize_parse_info', '_extract_excerpt',
+           '_get_line_and_column', '_map_index_to_line_and_column', '_caret_at', '_hash', 'parse',
+           '_wrap_string_literal', '_wrap_byte_literal'}
+MODULE_HELPERS = {}
+
+
+def set_module(tree):
+    """module-level functions of the subject under analysis that are *not* anchors of a rule may be
+    inlined wherever they are called as a whole statement / right-hand side (extract-function
+    refactorings must not blind the rules)"""
+    MODULE_HELPERS.clear()
+    if tree is None:
+        return
+    for n in tree.body:
+        if isinstance(n, ast.FunctionDef) and n.name not in ANCHORS and not n.name.startswith(
+                ('_try_', '_parse_', '_raise_error')) and len(list(ast.walk(n))) < 400:
+            MODULE_HELPERS[n.name] = n
+
+
+def render_parts(t):
+    """flatten a string-building term (f-string, +, %, str.format, repr()/str()) into a list of
+    ('lit', text) | ('fmt', term, conversion char or None); None when the shape is not understood"""
+    import string as _string
+    if not isinstance(t, tuple):
+        return None
+    if t[0] == 'CONST':
+        try:
+            v = ast.literal_eval(t[1])
+        except Exception:
+            return None
+        return [('lit', v)] if isinstance(v, str) else None
+    if t[0] == 'FSTR':
+        out = []
+        for x in t[1:]:
+            if x[0] == 'CONST':
+                out.append(('lit', ast.literal_eval(x[1])))
+            else:
+                out.append(('fmt', x[1], chr(x[2]) if x[2] and x[2] > 0 else None))
+        return out
+    if t[0] == 'OP' and t[1] == 'Add':
+        a, b = render_parts(t[2]), render_parts(t[3])
+        return None if a is None or b is None else a + b
+    if t[0] == 'CALL' and t[1] in (('VAR', 'repr'), ('VAR', 'str')) and len(t) == 3:
+        return [('fmt', t[2], 'r' if t[1][1] == 'repr' else None)]
+    if t[0] == 'OP' and t[1] == 'Mod' and t[2][0] == 'CONST':
+        fmt = ast.literal_eval(t[2][1])
+        args = list(t[3][1:]) if t[3][0] == 'TUPLE' else [t[3]]
+        out, i = [], 0
+        import re as _re
+        pos = 0
+        for m in _re.finditer(r'%([rs%])', fmt):
+            out.append(('lit', fmt[pos:m.start()]))
+            pos = m.end()
+            if m.group(1) == '%':
+                out.append(('lit', '%'))
+                continue
+            if i >= len(args):
+                return None
+            out.append(('fmt', args[i], 'r' if m.group(1) == 'r' else None))
+            i += 1
+        out.append(('lit', fmt[pos:]))
+        if i != len(args) or '%' in ''.join(x[1] for x in out if x[0] == 'lit' and x[1] != '%'):
+            return None
+        return out
+    if t[0] == 'CALL' and isinstance(t[1], tuple) and t[1][0] == 'ATTR' and t[1][2] == 'format' \
+            and t[1][1][0] == 'CONST':
+        fmt = ast.literal_eval(t[1][1][1])
+        args = [a for a in t[2:] if a[0] != 'KW']
+        kws = {a[1]: a[2] for a in t[2:] if a[0] == 'KW'}
+        out, auto = [], 0
+        try:
+            for lit, field, spec, conv in _string.Formatter().parse(fmt):
+                if lit:
+                    out.append(('lit', lit))
+                if field is None:
+                    continue
+                if spec:
+                    return None
+                if field == '':
+                    arg = args[auto]
+                    auto += 1
+                elif field.isdigit():
+                    arg = args[int(field)]
+                elif field in kws:
+                    arg = kws[field]
+                else:
+                    return None
+                out.append(('fmt', arg, conv))
+        except (ValueError, IndexError):
+            return None
+        return out
+    return None
+
+
 class Enumerator:
     def __init__(self, global_names=(), helpers=None):
         self.npaths = 0
         self.loop_ids = itertools.count(1)
         self.global_names = set(global_names)
         self.local_defs = {}            # name -> FunctionDef of helpers defined inside the function
-        self.helpers = dict(helpers or {})   # module-level helper functions that may be inlined
+        self.helpers = dict(MODULE_HELPERS)  # module-level helper functions that may be inlined
+        self.helpers.update(helpers or {})
         self.inline_depth = 0
 
     # ---- terms
@@ -374,16 +469,21 @@ class Enumerator:
             return None
         if any(isinstance(n, (ast.Yield, ast.YieldFrom, ast.Nonlocal, ast.Global)) for n in ast.walk(fn)):
             return None
-        env = dict(p.env)
-        for prm, arg in zip(a.args, call.args):
-            env[prm.arg] = self.val(arg, p.env)
+        start = Path(dict(p.env), [])
         self.inline_depth += 1
+        saved_mut = self.mutated
         try:
-            saved_mut = self.mutated
             self.mutated = self.mutated | self.mutated_names(fn)
-            subs = self.block(fn.body, [Path(env, [])])
-            self.mutated = saved_mut
+            for prm, arg in zip(a.args, call.args):
+                # a freshly built argument that the helper mutates becomes an object of its own
+                if prm.arg in self.mutated and isinstance(arg, (ast.List, ast.Dict, ast.Set, ast.Call, ast.ListComp,
+                                                               ast.DictComp, ast.SetComp)):
+                    self.assign(ast.Name(prm.arg, ast.Store()), self.val(arg, p.env), start, call, arg)
+                else:
+                    start.env[prm.arg] = self.val(arg, p.env)
+            subs = self.block(fn.body, [start])
         finally:
+            self.mutated = saved_mut
             self.inline_depth -= 1
         out = []
         for sp in subs:
